@@ -57,8 +57,9 @@ func (c *WhipClient) Init(username string, perms []string) {
 }
 
 func (c *WhipClient) Permissions() []string {
-	c.mu.Lock()
-	defer c.mu.Unlock()
+	// Set once by Init, before the client becomes visible.  This is
+	// called with the group lock held, while Close takes the group
+	// lock with c.mu held, so it must not take c.mu.
 	return c.permissions
 }
 
